@@ -1,7 +1,7 @@
 #!/bin/sh
 # usage: try_seed.sh <patch.diff> <check script> [tier]   -- apply a seeded change to /repo, run the check, undo.
 set -u
-P="$1"; C="$2"; T="${3:-quick}"
+P="$(readlink -f "$1")"; C="$2"; T="${3:-quick}"
 cd /repo || exit 2
 if [ -n "$(git status --porcelain --untracked-files=no)" ]; then echo "/repo dirty"; exit 2; fi
 if ! git apply "$P" 2>/dev/null; then
